@@ -1,7 +1,7 @@
 /-
   C04 — the inferred schema accepts every encoded value.  Property theorems only
   (helper lemmas: JSV/Proofs/InfStore.lean, InfStruct.lean, InfEqns.lean, InfModels.lean, InfValid.lean,
-  InfSound.lean, InfNamed.lean, InfTable.lean, InfEmb*.lean; the model of encoding/json on the fragment is
+  InfSound.lean, InfNamed.lean, InfTable.lean, InfTableTree.lean, InfEmb*.lean; the model of encoding/json on the fragment is
   JSV/Spec/EncJson.lean).
 
   Vocabulary:
@@ -13,7 +13,9 @@
     types (`EncJson.erase`); `EncJson.NamedOk opts strs [] T` : `forType` does so too (no type-table entry, no name
     twice along a path) — or the type is one of the marshaler types `strs` of the type table (`infer_sound_named`);
     `EncJson.EntriesAccept opts st false T` (JSV/Proofs/InfTable.lean): every entry of the type table that `forType`
-    meets in `T` accepts the encodings of its type (`infer_sound_table_partial`);
+    meets in `T` accepts the encodings of its type (`infer_sound_table_partial`: entries without subschemas);
+    `EncJson.EntriesAcceptTree opts st false T` (JSV/Proofs/InfTableTree.lean): the same for entries that are arbitrary
+    reference-free schema trees (`infer_sound_table`);
   * `Spec.specEnvNoRefs st re` : the Spec environment over the store, draft 2020-12, no references, any
     regexp matcher;
   * `EncJson.depth T` : the nesting depth of the schema, the fuel the Spec needs.
@@ -21,6 +23,7 @@
 import JSV.Proofs.InfSound
 import JSV.Proofs.InfNamed
 import JSV.Proofs.InfTable
+import JSV.Proofs.InfTableTree
 import JSV.Proofs.InfEmbSound
 import JSV.Proofs.InfEmbNamed
 import JSV.Proofs.EncEmbCons
@@ -240,6 +243,53 @@ theorem string_entry_accepts (st : Store) (sid : NodeId) (h : st.get? sid = some
 theorem no_entries_nothing_assumed (opts : IOpts) (st : Store) (h : opts.schemas = []) (T : GoType) :
     EntriesAccept opts st false T :=
   (entriesAccept_of_empty opts st h).1 T false
+
+/-! ### entries of the type table that are schema trees -/
+
+/-- **main, with entries of the type table**.  A declared type with an entry in the type table (`ForOptions.TypeSchemas`,
+    the initial entries) gets a clone of the entry (`CloneSchemas`), with `null` added to the types of the clone's ROOT
+    where the type is reached through a pointer.  Let every entry that `ForType` meets in `T` be a reference-free schema
+    tree that accepts the encodings of its type (`EntriesAcceptTree`: for every declared type `.named n u` of `T` with an
+    entry `sid` — outside `json:"-"` fields — `EntryAcceptsTree st sid u an`:
+    * the entry is a full, finite, reference-free schema tree in the store that holds the table (`Go.treeAll Iso.noRefs`:
+      objects with `properties`, `items`, `prefixItems`, `allOf` / `anyOf` / `oneOf` / `not`, `if` / `then` / `else`,
+      `additionalProperties`, `patternProperties`, `contains`, `dependentSchemas`, `propertyNames`, `unevaluated*` … to
+      any depth; what `checkStructure` accepts, shared subschemas included; no `$ref` / `$dynamicRef`);
+    * it accepts `encode u v` for every value `v` of the type — Spec validity, with the fuel `depth u + 1` the schema of
+      `u` itself would need (deeper entries: `infer_sound_table_deep`);
+    * where the type is used through a pointer: its root has a type keyword (D17) and, with `null` added to the types of
+      its root, the entry accepts `null`).
+    Then the schema `ForType` returns accepts the JSON encoding of every value of `T`.  E.g. a type with a custom
+    `MarshalJSON` and the entry `{"type":"object","properties":{"lat":{"type":"number"},"lon":{"type":"number"}},
+    "required":["lat","lon"]}` (`point_entryAcceptsTree` below).
+    Declared types without an entry are expanded and need no hypothesis, as in `infer_sound_table_partial`, which is the
+    special case of entries without subschemas (`entryAcceptsTree_of_leaf`).
+
+    Proof: the clone is a node-by-node copy of the entry (`Go.cloneFuel_sim`, C20) whose subschemas are allocated before
+    its root; validity is invariant under the renaming of node ids and blind to descriptions (`Iso.evalFuel_sim` along
+    `Iso.TSim`), so it survives the rewriting of the root (`null` added: only the `type` assertion changes,
+    `Iso.specBody_tableNull`), the later growth of the store and the descriptions the struct loop writes
+    (`Go.namedLeaf_table`).
+
+    Not covered: entries WITH `$ref` / `$dynamicRef` (see `table_entry_with_ref_*` below: after cloning into the inferred
+    schema a `#`-rooted reference is relative to the root of the INFERRED schema, not of the entry); an entry without a
+    type keyword reached through a pointer (D17); an entry that rejects some encoding (big.Int's, D13). -/
+theorem infer_sound_table (opts : IOpts) (fuel : Nat) (T : GoType) (st : Store) (id : NodeId) (st' : Store)
+    (re : String → String → Bool) (hnfs : opts.nullForSlices = true) (hdom : InDomainN T = true)
+    (hacc : EntriesAcceptTree opts st false T) (h : forType opts fuel T st = .ok (some id, st')) (v : GoValue)
+    (hv : HasType T v) (fuel' : Nat) (hf : depth T ≤ fuel') :
+    Spec.valid (specEnvNoRefs st' re) fuel' id (encode T v) = some true := by
+  obtain ⟨id', hid, hm⟩ := inferFuel_modelsTT opts hnfs st fuel T [] st (some id) st' (Ext.refl st) hdom hacc h
+  cases hid
+  rw [hnfs] at hm
+  exact valid_iff_isSome.1 ((Models.sound (re := re) T false id hm fuel' [] hf).2 v hv)
+
+/-- … and `ForType` never drops such a type -/
+theorem infer_some_table (opts : IOpts) (fuel : Nat) (T : GoType) (st : Store) (r : Option NodeId) (st' : Store)
+    (hnfs : opts.nullForSlices = true) (hdom : InDomainN T = true) (hacc : EntriesAcceptTree opts st false T)
+    (h : forType opts fuel T st = .ok (r, st')) : ∃ id, r = some id := by
+  obtain ⟨id, hid, _⟩ := inferFuel_modelsTT opts hnfs st fuel T [] st r st' (Ext.refl st) hdom hacc h
+  exact ⟨id, hid⟩
 
 /-! ### the hypotheses of `infer_sound_named` are satisfiable, and needed (labelled tests)
 
